@@ -613,7 +613,12 @@ def Iff(a, b):
 
 
 def If(c, a, b):
-    return ite(c, a, b)
+    """a / b may be callables: with a concrete condition only the chosen one is evaluated (guarded indexing in clauses)"""
+    cr = raw(c)
+    if isinstance(cr, (bool, _np.bool_)):
+        x = a if cr else b
+        return x() if callable(x) else x
+    return ite(c, a() if callable(a) else a, b() if callable(b) else b)
 
 
 def _flat(xs):
